@@ -34,7 +34,12 @@ VSectors(r) ==
   ELSE IF \E k \in 1..Len(r.entries) : ~C31_SectorEntry(Pair(r.entries[k].lab), r.entries[k].elems, r.qed)
        THEN "C31:sector-members"
   ELSE IF {Pair(r.entries[k].lab) : k \in 1..Len(r.entries)} # SectorLabels(r.qed) THEN "C31:sector-map-keys"
+  ELSE IF ~C31_SectorGroups(r.singlet, r.valence, r.nonsinglet, r.qed) THEN "C31:sector-groups"
   ELSE "ok"
+
+VIntrinsicLabels(r) ==
+  IF r.err # "" THEN "C31:intrinsic-labels-raised:" \o r.err
+  ELSE IF C31_IntrinsicLabels(r.labels, r.nf, r.qed) THEN "ok" ELSE "C31:intrinsic-labels"
 
 VProj(r) ==
   LET lab == Pair(r.lab) IN
@@ -160,6 +165,7 @@ Verdict(r) ==
   CASE r.ev = "flavour-table" -> VFlavourTable(r)
     [] r.ev = "rotation" -> VRotation(r)
     [] r.ev = "sectors" -> VSectors(r)
+    [] r.ev = "intrinsic-labels" -> VIntrinsicLabels(r)
     [] r.ev = "proj" -> VProj(r)
     [] r.ev = "projs" -> VProjs(r)
     [] r.ev = "diag" -> VDiag(r)
